@@ -377,6 +377,14 @@ func (db *DB) Merge() error {
 			return fmt.Errorf("when merge err: %s", err)
 		}
 
+		if db.opt.SyncEnable {
+			// Make the removal durable before the next file is merged. After
+			// a power loss an unsynced unlink can be undone while a later one
+			// is kept: a merged file holding a superseded or deleted record
+			// would come back without the file that superseded it.
+			db.syncDir()
+		}
+
 		f.rwManager.Close()
 	}
 
@@ -413,6 +421,15 @@ func (db *DB) Close() error {
 	db.BPTreeIdx = nil
 
 	return nil
+}
+
+// syncDir flushes the directory entries of the database directory (best
+// effort: not every platform can sync a directory).
+func (db *DB) syncDir() {
+	if d, err := os.Open(db.opt.Dir); err == nil {
+		_ = d.Sync()
+		_ = d.Close()
+	}
 }
 
 // setActiveFile sets the ActiveFile (DataFile object).
